@@ -79,406 +79,418 @@ def run(eng, R):
     R.rule("E8", "state installed behind a fit's back by the reader is followed by the fit's own invalidation / wiring", 2)
 
     # ---------------------------------------------------------------- E1
-    registered = {}
-    for m in p.modules.values():
-        if not m.name.startswith(REPR):
-            continue
-        for st in m.tree.body:
-            if isinstance(st, ast.Expr) and isinstance(st.value, ast.Call) and isinstance(st.value.func, ast.Attribute) and st.value.func.attr == "_register_class":
-                c = p.resolve_expr_to_class(m, st.value.func.value)
-                if c is None:
-                    raise AnalysisError("cannot resolve registered representer %s" % ast.unparse(st.value.func.value))
-                try:
-                    name = c.const_value("BASE_OBJECT_TYPE_NAME")
-                    role = c.const_value("DREPR_ROLE_NAME")
-                    flavor = c.const_value("DREPR_FLAVOR_NAME")
-                except KeyError:
-                    raise AnalysisError("representer %s lacks type/role/flavor constants" % c.name)
-                registered.setdefault(name, {}).setdefault(role, set()).add(flavor)
-    R.info["registered representations"] = {k: sorted(v) for k, v in registered.items()}
-    fio = p.find_class("FileIOMixin")
-    owners = [c for c in p.all_classes() if ("_get_object_type_name" in c.methods) and c is not fio]
-    for c in sorted(owners, key=lambda k: k.name):
-        f = c.methods["_get_object_type_name"]
-        g = c.methods.get("_get_base_class")
-        is_cm = f.kind == "class" and (g is None or g.kind == "class")
-        R.ob("E1", "%s:classmethods" % c.name, is_cm, (f.file, f.lineno),
-             "%s._get_object_type_name/_get_base_class are not classmethods although FileIOMixin.from_file calls them on the class: %s.from_file raises TypeError" % (c.name, c.name))
-        r = _const_return(f)
-        name = common.const_str(r) if r is not None else None
-        ok = name is not None and "reader" in registered.get(name, {}) and "writer" in registered.get(name, {})
-        R.ob("E1", "%s:registered" % c.name, ok, (f.file, f.lineno),
-             "%s offers to_file/from_file with object type '%s', for which no reader+writer pair is registered (registered: %s): saving or loading through this class always raises" % (
-                 c.name, name, sorted(registered)))
-    for m in p.modules.values():
-        if not m.name.startswith(REPR):
-            continue
-        for c in m.classes.values():
-            if "_CLASS_TO_OBJECT_TYPE_NAME" in c.consts and "_OBJECT_TYPE_NAME_TO_CLASS" in c.consts:
-                c2n, n2c = c.consts["_CLASS_TO_OBJECT_TYPE_NAME"], c.consts["_OBJECT_TYPE_NAME_TO_CLASS"]
-                if not (isinstance(c2n, ast.Dict) and isinstance(n2c, ast.Dict)):
-                    raise AnalysisError("%s: type tables are not dict literals" % c.name)
-                fwd = {ast.unparse(k): common.const_str(v) for k, v in zip(c2n.keys, c2n.values)}
-                back = {common.const_str(k): ast.unparse(v) for k, v in zip(n2c.keys, n2c.values)}
-                bad = [(k, v) for k, v in fwd.items() if back.get(v) != k]
-                R.ob("E1", "%s:tables inverse" % c.name, not bad, (c.file, c.node.lineno), "%s: writer table and reader table disagree for %s: an object written as that type is read back as another class" % (c.name, bad))
-                # coverage of the family: every class named in the reader table that is a concrete kafe2 class must be writable
-                missing = sorted(set(back.values()) - set(fwd))
-                R.ob("E1", "%s:tables cover" % c.name, not missing or c.name == "ModelFunctionDReprBase", (c.file, c.node.lineno), "%s: classes %s can be read but not written" % (c.name, missing))
+    with R.guard("E1"):
+        registered = {}
+        for m in p.modules.values():
+            if not m.name.startswith(REPR):
+                continue
+            for st in m.tree.body:
+                if isinstance(st, ast.Expr) and isinstance(st.value, ast.Call) and isinstance(st.value.func, ast.Attribute) and st.value.func.attr == "_register_class":
+                    c = p.resolve_expr_to_class(m, st.value.func.value)
+                    if c is None:
+                        raise AnalysisError("cannot resolve registered representer %s" % ast.unparse(st.value.func.value))
+                    try:
+                        name = c.const_value("BASE_OBJECT_TYPE_NAME")
+                        role = c.const_value("DREPR_ROLE_NAME")
+                        flavor = c.const_value("DREPR_FLAVOR_NAME")
+                    except KeyError:
+                        raise AnalysisError("representer %s lacks type/role/flavor constants" % c.name)
+                    registered.setdefault(name, {}).setdefault(role, set()).add(flavor)
+        R.info["registered representations"] = {k: sorted(v) for k, v in registered.items()}
+        fio = p.find_class("FileIOMixin")
+        owners = [c for c in p.all_classes() if ("_get_object_type_name" in c.methods) and c is not fio]
+        for c in sorted(owners, key=lambda k: k.name):
+            f = c.methods["_get_object_type_name"]
+            g = c.methods.get("_get_base_class")
+            is_cm = f.kind == "class" and (g is None or g.kind == "class")
+            R.ob("E1", "%s:classmethods" % c.name, is_cm, (f.file, f.lineno),
+                 "%s._get_object_type_name/_get_base_class are not classmethods although FileIOMixin.from_file calls them on the class: %s.from_file raises TypeError" % (c.name, c.name))
+            r = _const_return(f)
+            name = common.const_str(r) if r is not None else None
+            ok = name is not None and "reader" in registered.get(name, {}) and "writer" in registered.get(name, {})
+            R.ob("E1", "%s:registered" % c.name, ok, (f.file, f.lineno),
+                 "%s offers to_file/from_file with object type '%s', for which no reader+writer pair is registered (registered: %s): saving or loading through this class always raises" % (
+                     c.name, name, sorted(registered)))
+        for m in p.modules.values():
+            if not m.name.startswith(REPR):
+                continue
+            for c in m.classes.values():
+                if "_CLASS_TO_OBJECT_TYPE_NAME" in c.consts and "_OBJECT_TYPE_NAME_TO_CLASS" in c.consts:
+                    c2n, n2c = c.consts["_CLASS_TO_OBJECT_TYPE_NAME"], c.consts["_OBJECT_TYPE_NAME_TO_CLASS"]
+                    if not (isinstance(c2n, ast.Dict) and isinstance(n2c, ast.Dict)):
+                        raise AnalysisError("%s: type tables are not dict literals" % c.name)
+                    fwd = {ast.unparse(k): common.const_str(v) for k, v in zip(c2n.keys, c2n.values)}
+                    back = {common.const_str(k): ast.unparse(v) for k, v in zip(n2c.keys, n2c.values)}
+                    bad = [(k, v) for k, v in fwd.items() if back.get(v) != k]
+                    R.ob("E1", "%s:tables inverse" % c.name, not bad, (c.file, c.node.lineno), "%s: writer table and reader table disagree for %s: an object written as that type is read back as another class" % (c.name, bad))
+                    # coverage of the family: every class named in the reader table that is a concrete kafe2 class must be writable
+                    missing = sorted(set(back.values()) - set(fwd))
+                    R.ob("E1", "%s:tables cover" % c.name, not missing or c.name == "ModelFunctionDReprBase", (c.file, c.node.lineno), "%s: classes %s can be read but not written" % (c.name, missing))
 
     # ---------------------------------------------------------------- E2
-    helpers_w = [p.resolve_name(p.module(REPR + ".error.common_error_tools"), "write_errors_to_yaml")]
-    helpers_r = [p.resolve_name(p.module(REPR + ".error.common_error_tools"), "process_error_sources")]
-    sections = p.module(REPR + ".error.common_error_tools").consts.get("_yaml_error_section_for_axis")
-    section_names = [common.const_str(v) for v in sections.values] if isinstance(sections, ast.Dict) else []
-    if len(section_names) != 3:
-        raise AnalysisError("error section table not found")
-    for wn, rn in PAIRS:
-        W, Rd = p.find_class(wn), p.find_class(rn)
-        wf = [W.find_method("_make_representation")]
-        uses_err = "write_errors_to_yaml" in ast.unparse(wf[0].node)
-        rfuncs = [f for f in cache.visible_functions(Rd) if f.cls is Rd]
-        wk = written_keys(wf + (helpers_w if uses_err else []))
-        ck = consumed_keys(rfuncs + (helpers_r if uses_err else []))
-        if uses_err:
-            for s in section_names:
-                wk.setdefault(s, []).append((helpers_w[0], helpers_w[0].node))
-        for k, sites in sorted(wk.items()):
-            kk = k.split(":", 1)[1] if k.startswith("@entry:") else k
-            f, n = sites[0]
-            R.ob("E2", "%s:%s" % (wn, k), kk in ck, (f.file, getattr(n, "lineno", f.lineno)),
-                 "%s writes the key '%s' but %s never consumes it: every file written by this class fails to load ('unknown or unsupported keywords') or loses that state" % (wn, kk, rn))
-        req = Rd.find_method("_get_required_keywords")
-        if req is not None and req.cls is Rd:
-            need = set()
-            for n in ast.walk(req.node):
-                if isinstance(n, ast.Return) and isinstance(n.value, ast.List):
-                    need |= {common.const_str(e) for e in n.value.elts if common.const_str(e)}
-            plain = {k for k in wk if not k.startswith("@entry:")}
-            for k in sorted(need):
-                R.ob("E2", "%s:required %s" % (rn, k), k in plain, (req.file, req.lineno), "%s requires the key '%s' which %s never writes: no written file can be loaded" % (rn, k, wn))
+    with R.guard("E2"):
+        helpers_w = [p.resolve_name(p.module(REPR + ".error.common_error_tools"), "write_errors_to_yaml")]
+        helpers_r = [p.resolve_name(p.module(REPR + ".error.common_error_tools"), "process_error_sources")]
+        sections = p.module(REPR + ".error.common_error_tools").consts.get("_yaml_error_section_for_axis")
+        section_names = [common.const_str(v) for v in sections.values] if isinstance(sections, ast.Dict) else []
+        if len(section_names) != 3:
+            raise AnalysisError("error section table not found")
+        for wn, rn in PAIRS:
+            W, Rd = p.find_class(wn), p.find_class(rn)
+            wf = [W.find_method("_make_representation")]
+            uses_err = "write_errors_to_yaml" in ast.unparse(wf[0].node)
+            rfuncs = [f for f in cache.visible_functions(Rd) if f.cls is Rd]
+            wk = written_keys(wf + (helpers_w if uses_err else []))
+            ck = consumed_keys(rfuncs + (helpers_r if uses_err else []))
+            if uses_err:
+                for s in section_names:
+                    wk.setdefault(s, []).append((helpers_w[0], helpers_w[0].node))
+            for k, sites in sorted(wk.items()):
+                kk = k.split(":", 1)[1] if k.startswith("@entry:") else k
+                f, n = sites[0]
+                R.ob("E2", "%s:%s" % (wn, k), kk in ck, (f.file, getattr(n, "lineno", f.lineno)),
+                     "%s writes the key '%s' but %s never consumes it: every file written by this class fails to load ('unknown or unsupported keywords') or loses that state" % (wn, kk, rn))
+            req = Rd.find_method("_get_required_keywords")
+            if req is not None and req.cls is Rd:
+                need = set()
+                for n in ast.walk(req.node):
+                    if isinstance(n, ast.Return) and isinstance(n.value, ast.List):
+                        need |= {common.const_str(e) for e in n.value.elts if common.const_str(e)}
+                plain = {k for k in wk if not k.startswith("@entry:")}
+                for k in sorted(need):
+                    R.ob("E2", "%s:required %s" % (rn, k), k in plain, (req.file, req.lineno), "%s requires the key '%s' which %s never writes: no written file can be loaded" % (rn, k, wn))
 
     # ---------------------------------------------------------------- E3
-    for wn, rn in PAIRS:
-        W = p.find_class(wn)
-        f = W.find_method("_make_representation")
-        by_branch = {}
-        for n in ast.walk(f.node):
-            if isinstance(n, ast.Assign) and len(n.targets) == 1 and isinstance(n.targets[0], ast.Subscript) and common.const_str(n.targets[0].slice) \
-                    and isinstance(n.targets[0].value, ast.Name) and n.targets[0].value.id == "_yaml_doc":
-                cond = " & ".join(ast.unparse(c) + str(pol) for c, pol in common.guard_conditions(f.node, n))
-                by_branch.setdefault(cond, []).append((common.const_str(n.targets[0].slice), ast.dump(n.value), n))
-        dup = None
-        for cond, items in by_branch.items():
-            seen = {}
-            for k, d, n in items:
-                if isinstance(n.value, (ast.Constant,)) or (isinstance(n.value, ast.Name)):
-                    continue
-                if d in seen and seen[d] != k:
-                    dup = (seen[d], k, n)
-                seen[d] = k
-        R.ob("E3", wn, dup is None, (f.file, dup[2].lineno if dup else f.lineno),
-             "%s writes the keys '%s' and '%s' from the same expression (%s): one of the two values is lost on every round trip" % (wn, dup[0] if dup else "", dup[1] if dup else "", norm_stmt(dup[2].value) if dup else ""))
+    with R.guard("E3"):
+        for wn, rn in PAIRS:
+            W = p.find_class(wn)
+            f = W.find_method("_make_representation")
+            by_branch = {}
+            for n in ast.walk(f.node):
+                if isinstance(n, ast.Assign) and len(n.targets) == 1 and isinstance(n.targets[0], ast.Subscript) and common.const_str(n.targets[0].slice) \
+                        and isinstance(n.targets[0].value, ast.Name) and n.targets[0].value.id == "_yaml_doc":
+                    cond = " & ".join(ast.unparse(c) + str(pol) for c, pol in common.guard_conditions(f.node, n))
+                    by_branch.setdefault(cond, []).append((common.const_str(n.targets[0].slice), ast.dump(n.value), n))
+            dup = None
+            for cond, items in by_branch.items():
+                seen = {}
+                for k, d, n in items:
+                    if isinstance(n.value, (ast.Constant,)) or (isinstance(n.value, ast.Name)):
+                        continue
+                    if d in seen and seen[d] != k:
+                        dup = (seen[d], k, n)
+                    seen[d] = k
+            R.ob("E3", wn, dup is None, (f.file, dup[2].lineno if dup else f.lineno),
+                 "%s writes the keys '%s' and '%s' from the same expression (%s): one of the two values is lost on every round trip" % (wn, dup[0] if dup else "", dup[1] if dup else "", norm_stmt(dup[2].value) if dup else ""))
 
     # ---------------------------------------------------------------- E4
-    cw = p.find_class("ConstraintYamlWriter").find_method("_make_representation")
+    with R.guard("E4"):
+        cw = p.find_class("ConstraintYamlWriter").find_method("_make_representation")
 
-    def accessor_by_flag(f, key, var="_yaml_doc"):
-        res = []
-        for n in ast.walk(f.node):
-            if isinstance(n, ast.Assign) and len(n.targets) == 1 and isinstance(n.targets[0], ast.Subscript) and common.const_str(n.targets[0].slice) == key:
-                conds = common.guard_conditions(f.node, n)
-                nf = common.conj_normal_form(conds)
-                rel = {pol for a, pol in nf if a.endswith("relative")}
-                val = n.value
-                if isinstance(val, ast.IfExp) and "relative" in ast.unparse(val.test):
-                    res.append((True, ast.unparse(val.body)))
-                    res.append((False, ast.unparse(val.orelse)))
-                else:
-                    res.append((next(iter(rel)) if len(rel) == 1 else None, ast.unparse(val)))
-        return res
+        def accessor_by_flag(f, key, var="_yaml_doc"):
+            res = []
+            for n in ast.walk(f.node):
+                if isinstance(n, ast.Assign) and len(n.targets) == 1 and isinstance(n.targets[0], ast.Subscript) and common.const_str(n.targets[0].slice) == key:
+                    conds = common.guard_conditions(f.node, n)
+                    nf = common.conj_normal_form(conds)
+                    rel = {pol for a, pol in nf if a.endswith("relative")}
+                    val = n.value
+                    if isinstance(val, ast.IfExp) and "relative" in ast.unparse(val.test):
+                        res.append((True, ast.unparse(val.body)))
+                        res.append((False, ast.unparse(val.orelse)))
+                    else:
+                        res.append((next(iter(rel)) if len(rel) == 1 else None, ast.unparse(val)))
+            return res
 
-    def check_flagged(rule_key, f, key, branch_filter=None):
-        res = accessor_by_flag(f, key)
-        if branch_filter:
-            res = [r for r in res if branch_filter(r[1])]
-        if not res:
-            raise AnalysisError("E4: writer of key %s not found in %s" % (key, f.qualname))
-        bad = [(fl, v) for fl, v in res if fl is None or (fl is True and "_rel" not in v) or (fl is False and "_rel" in v)]
-        R.ob("E4", rule_key, not bad, (f.file, f.lineno),
-             "%s writes '%s' as %s: the value is stored relative or absolute depending on the flag `relative` (which is written too), so the accessor must be "
-             "chosen by that flag - otherwise a reloaded relative object is scaled by its reference once more" % (f.qualname, key, bad))
+        def check_flagged(rule_key, f, key, branch_filter=None):
+            res = accessor_by_flag(f, key)
+            if branch_filter:
+                res = [r for r in res if branch_filter(r[1])]
+            if not res:
+                raise AnalysisError("E4: writer of key %s not found in %s" % (key, f.qualname))
+            bad = [(fl, v) for fl, v in res if fl is None or (fl is True and "_rel" not in v) or (fl is False and "_rel" in v)]
+            R.ob("E4", rule_key, not bad, (f.file, f.lineno),
+                 "%s writes '%s' as %s: the value is stored relative or absolute depending on the flag `relative` (which is written too), so the accessor must be "
+                 "chosen by that flag - otherwise a reloaded relative object is scaled by its reference once more" % (f.qualname, key, bad))
 
-    check_flagged("simple constraint:uncertainty", cw, "uncertainty")
-    check_flagged("matrix constraint:matrix(cov)", cw, "matrix", lambda v: "cov_mat" in v)
-    check_flagged("matrix constraint:uncertainties", cw, "uncertainties")
-    we = helpers_w[0]
-    src = common.src_of(we.node)
-    # placeholders: `_e` the error dictionary, `_r` the relative flag, `_v` the values written, `_s` the section list
-    OBJ = ["_e['err']", "_o"]
-    ok = any(common.like_any(src, ["_r = %s.relative" % o, "_v = %s.error_rel if _r else %s.error" % (o, o)] + (["_o = _e['err']"] if o == "_o" else []),
-                             ["_v = %s.error_rel if %s.relative else %s.error" % (o, o, o)] + (["_o = _e['err']"] if o == "_o" else [])) for o in OBJ)
-    R.ob("E4", "error source:error_value", ok, (we.file, we.lineno), "write_errors_to_yaml must write the relative error values of a relative source and the absolute ones otherwise")
-    ok = any(common.like_any(src, ["_r = %s.relative" % o, "%s['matrix'] = %s.cov_mat_rel if _r else %s.cov_mat" % (tgt, o, o)] + (["_o = _e['err']"] if o == "_o" else []),
-                             ["%s['matrix'] = %s.cov_mat_rel if %s.relative else %s.cov_mat" % (tgt, o, o, o)] + (["_o = _e['err']"] if o == "_o" else []))
-             for o in OBJ for tgt in ("_s[-1]", "_entry"))   # (written into the last entry of the section, or into the entry held in a local)
-    R.ob("E4", "error source:matrix", ok, (we.file, we.lineno), "write_errors_to_yaml must write the relative covariance matrix of a relative matrix source and the absolute one otherwise")
+        check_flagged("simple constraint:uncertainty", cw, "uncertainty")
+        check_flagged("matrix constraint:matrix(cov)", cw, "matrix", lambda v: "cov_mat" in v)
+        check_flagged("matrix constraint:uncertainties", cw, "uncertainties")
+        we = helpers_w[0]
+        src = common.src_of(we.node)
+        # placeholders: `_e` the error dictionary, `_r` the relative flag, `_v` the values written, `_s` the section list
+        OBJ = ["_e['err']", "_o"]
+        ok = any(common.like_any(src, ["_r = %s.relative" % o, "_v = %s.error_rel if _r else %s.error" % (o, o)] + (["_o = _e['err']"] if o == "_o" else []),
+                                 ["_v = %s.error_rel if %s.relative else %s.error" % (o, o, o)] + (["_o = _e['err']"] if o == "_o" else [])) for o in OBJ)
+        R.ob("E4", "error source:error_value", ok, (we.file, we.lineno), "write_errors_to_yaml must write the relative error values of a relative source and the absolute ones otherwise")
+        ok = any(common.like_any(src, ["_r = %s.relative" % o, "%s['matrix'] = %s.cov_mat_rel if _r else %s.cov_mat" % (tgt, o, o)] + (["_o = _e['err']"] if o == "_o" else []),
+                                 ["%s['matrix'] = %s.cov_mat_rel if %s.relative else %s.cov_mat" % (tgt, o, o, o)] + (["_o = _e['err']"] if o == "_o" else []))
+                 for o in OBJ for tgt in ("_s[-1]", "_entry"))   # (written into the last entry of the section, or into the entry held in a local)
+        R.ob("E4", "error source:matrix", ok, (we.file, we.lineno), "write_errors_to_yaml must write the relative covariance matrix of a relative matrix source and the absolute one otherwise")
 
     # ---------------------------------------------------------------- E5
-    ic = p.find_class("IndexedContainer").find_method("_calculate_total_error")
-    used = {common.const_str(n.slice) for n in ast.walk(ic.node) if isinstance(n, ast.Subscript) and isinstance(n.value, ast.Name) and n.value.id == "_err_dict" and common.const_str(n.slice)}
-    xc = p.find_class("XYContainer").find_method("_calculate_total_error")
-    used |= {common.const_str(n.slice) for n in ast.walk(xc.node) if isinstance(n, ast.Subscript) and isinstance(n.value, ast.Name) and n.value.id == "_err_dict" and common.const_str(n.slice)}
-    wsrc = ast.unparse(we.node)
-    rsrc = ast.unparse(helpers_r[0].node)
-    for k in sorted(used):
-        if k == "err":
-            ok = "_err_dict['err']" in wsrc
-        elif k == "axis":
-            ok = "_err_dict.get('axis'" in wsrc and "axis" in rsrc
-        else:
-            entry_dicts = [n for n in ast.walk(we.node) if isinstance(n, ast.Call) and isinstance(n.func, ast.Name) and n.func.id == "dict" and n.keywords
-                           and isinstance(common.parents_of(we.node).get(id(n)), ast.Call) and getattr(common.parents_of(we.node).get(id(n)).func, "attr", "") == "append"]
-            ok = bool(entry_dicts) and all(any(kw.arg == k and ("_err_dict['%s']" % k) in ast.unparse(kw.value).replace('"', "'") for kw in d.keywords) for d in entry_dicts) \
-                and ("_err.get('%s'" % k) in rsrc.replace('"', "'")
-        R.ob("E5", "source state:%s" % k, ok, (we.file, we.lineno), "the per-source state '%s' (used by the total uncertainty) is not written and restored: a reloaded container has a different total covariance" % k)
-    if "enabled" in used:
-        R.ob("E5", "source state:enabled applied", "disable_error" in rsrc, (helpers_r[0].file, helpers_r[0].lineno), "process_error_sources reads 'enabled' but never disables the source")
-    fr = p.find_class("FitYamlReader").find_method("_convert_yaml_doc_to_object")
-    ls = p.find_class("FitBase").find_method("load_state")
-    for nm, f in (("FitYamlReader", fr), ("FitBase.load_state", ls)):
-        s = ast.unparse(f.node)
-        ok = "parameter_values" in s and "set_all_fit_parameter_values" in s
-        R.ob("E5", "%s:parameter values applied" % nm, ok, (f.file, f.lineno), "%s stores the loaded results but does not apply the stored parameter values (for a custom fit they are stored nowhere else)" % nm)
+    with R.guard("E5"):
+        ic = p.find_class("IndexedContainer").find_method("_calculate_total_error")
+        used = {common.const_str(n.slice) for n in ast.walk(ic.node) if isinstance(n, ast.Subscript) and isinstance(n.value, ast.Name) and n.value.id == "_err_dict" and common.const_str(n.slice)}
+        xc = p.find_class("XYContainer").find_method("_calculate_total_error")
+        used |= {common.const_str(n.slice) for n in ast.walk(xc.node) if isinstance(n, ast.Subscript) and isinstance(n.value, ast.Name) and n.value.id == "_err_dict" and common.const_str(n.slice)}
+        wsrc = ast.unparse(we.node)
+        rsrc = ast.unparse(helpers_r[0].node)
+        for k in sorted(used):
+            if k == "err":
+                ok = "_err_dict['err']" in wsrc
+            elif k == "axis":
+                ok = "_err_dict.get('axis'" in wsrc and "axis" in rsrc
+            else:
+                entry_dicts = [n for n in ast.walk(we.node) if isinstance(n, ast.Call) and isinstance(n.func, ast.Name) and n.func.id == "dict" and n.keywords
+                               and isinstance(common.parents_of(we.node).get(id(n)), ast.Call) and getattr(common.parents_of(we.node).get(id(n)).func, "attr", "") == "append"]
+                ok = bool(entry_dicts) and all(any(kw.arg == k and ("_err_dict['%s']" % k) in ast.unparse(kw.value).replace('"', "'") for kw in d.keywords) for d in entry_dicts) \
+                    and ("_err.get('%s'" % k) in rsrc.replace('"', "'")
+            R.ob("E5", "source state:%s" % k, ok, (we.file, we.lineno), "the per-source state '%s' (used by the total uncertainty) is not written and restored: a reloaded container has a different total covariance" % k)
+        if "enabled" in used:
+            R.ob("E5", "source state:enabled applied", "disable_error" in rsrc, (helpers_r[0].file, helpers_r[0].lineno), "process_error_sources reads 'enabled' but never disables the source")
+        fr = p.find_class("FitYamlReader").find_method("_convert_yaml_doc_to_object")
+        ls = p.find_class("FitBase").find_method("load_state")
+        for nm, f in (("FitYamlReader", fr), ("FitBase.load_state", ls)):
+            s = ast.unparse(f.node)
+            ok = "parameter_values" in s and "set_all_fit_parameter_values" in s
+            R.ob("E5", "%s:parameter values applied" % nm, ok, (f.file, f.lineno), "%s stores the loaded results but does not apply the stored parameter values (for a custom fit they are stored nowhere else)" % nm)
 
     # ---------------------------------------------------------------- E6
-    yw = p.find_class("YamlWriterMixin").find_method("write")
-    g = eng.cfg(yw)
+    with R.guard("E6"):
+        yw = p.find_class("YamlWriterMixin").find_method("write")
+        g = eng.cfg(yw)
 
-    def is_trunc(n):
-        return any(isinstance(c.func, ast.Attribute) and c.func.attr == "truncate" and c.args and isinstance(c.args[0], ast.Constant) and c.args[0].value == 0 for c in eng.calls_in_parts(n.ast_parts()))
+        def is_trunc(n):
+            return any(isinstance(c.func, ast.Attribute) and c.func.attr == "truncate" and c.args and isinstance(c.args[0], ast.Constant) and c.args[0].value == 0 for c in eng.calls_in_parts(n.ast_parts()))
 
-    def is_write(n):
-        for c in eng.calls_in_parts(n.ast_parts()):
-            if isinstance(c.func, ast.Attribute) and c.func.attr in ("write", "dump") and not is_self(c.func.value):
-                return True
-        return False
+        def is_write(n):
+            for c in eng.calls_in_parts(n.ast_parts()):
+                if isinstance(c.func, ast.Attribute) and c.func.attr in ("write", "dump") and not is_self(c.func.value):
+                    return True
+            return False
 
-    writes = [n for n in g.stmt_nodes() if is_write(n)]
-    ok = bool(writes) and all(g.dominated_by(n.id, is_trunc)[0] for n in writes)
-    R.ob("E6", "YamlWriterMixin.write", ok, (yw.file, yw.lineno), "the YAML writer can write to the append-mode handle without truncating first: writing to an existing file appends a second document")
-    oh = p.find_class("OutputFileHandle").find_method("__init__")
-    modes = [common.const_str(k.value) for c in ast.walk(oh.node) if isinstance(c, ast.Call) for k in c.keywords if k.arg == "mode"]
-    # every writer class registered overrides write through YamlWriterMixin
-    bad = []
-    for wn, _ in PAIRS:
-        W = p.find_class(wn)
-        if W.find_method("write") is not yw:
-            bad.append(wn)
-    R.ob("E6", "writers use the truncating write", not bad and modes == ["a"], (yw.file, yw.lineno), "writers %s do not use YamlWriterMixin.write while OutputFileHandle opens in mode %s" % (bad, modes))
+        writes = [n for n in g.stmt_nodes() if is_write(n)]
+        ok = bool(writes) and all(g.dominated_by(n.id, is_trunc)[0] for n in writes)
+        R.ob("E6", "YamlWriterMixin.write", ok, (yw.file, yw.lineno), "the YAML writer can write to the append-mode handle without truncating first: writing to an existing file appends a second document")
+        oh = p.find_class("OutputFileHandle").find_method("__init__")
+        modes = [common.const_str(k.value) for c in ast.walk(oh.node) if isinstance(c, ast.Call) for k in c.keywords if k.arg == "mode"]
+        # every writer class registered overrides write through YamlWriterMixin
+        bad = []
+        for wn, _ in PAIRS:
+            W = p.find_class(wn)
+            if W.find_method("write") is not yw:
+                bad.append(wn)
+        R.ob("E6", "writers use the truncating write", not bad and modes == ["a"], (yw.file, yw.lineno), "writers %s do not use YamlWriterMixin.write while OutputFileHandle opens in mode %s" % (bad, modes))
 
     # ---------------------------------------------------------------- E7
-    pe = helpers_r[0]
-    pen = eng.cnode(pe)  # canonical: a shared wrapping helper is written out for each of the three lists
-    # the list popped for each key, followed through plain copies
-    group = {}
+    with R.guard("E7"):
+        pe = helpers_r[0]
+        pen = eng.cnode(pe)  # canonical: a shared wrapping helper is written out for each of the three lists
+        # the list popped for each key, followed through plain copies
+        group = {}
 
-    def find(x):
-        while group.get(x, x) != x:
-            x = group[x]
-        return x
+        def find(x):
+            while group.get(x, x) != x:
+                x = group[x]
+            return x
 
-    popped = {}
-    for n in ast.walk(pen):
-        if isinstance(n, ast.Assign) and len(n.targets) == 1 and isinstance(n.targets[0], ast.Name):
-            v = n.value
-            if isinstance(v, ast.Name):
-                group[find(n.targets[0].id)] = find(v.id)
-            if isinstance(v, ast.Call) and isinstance(v.func, ast.Attribute) and v.func.attr == "pop" and v.args and common.const_str(v.args[0]) in ("x_errors", "y_errors", "errors"):
-                popped[common.const_str(v.args[0])] = n.targets[0].id
-    tests = {}
-    for n in ast.walk(pen):
-        if isinstance(n, ast.Call) and isinstance(n.func, ast.Name) and n.func.id == "isinstance" and len(n.args) == 2 and isinstance(n.args[0], ast.Subscript) \
-                and isinstance(n.args[0].value, ast.Name) and ast.unparse(n.args[0].slice) == "0":
-            ty = n.args[1]
-            names = sorted(e.id for e in (ty.elts if isinstance(ty, ast.Tuple) else [ty]) if isinstance(e, ast.Name))
-            for key, var in popped.items():
-                if find(var) == find(n.args[0].value.id):
-                    tests[{"x_errors": "_xerrs", "y_errors": "_yerrs", "errors": "_errs"}[key]] = names
-    if set(tests) != {"_xerrs", "_yerrs", "_errs"}:
-        raise AnalysisError("process_error_sources: shorthand element tests not found (%s)" % sorted(tests))
-    ref = tests["_yerrs"]
-    for k, v in sorted(tests.items()):
-        R.ob("E7", "shorthand list:%s" % k, v == ref, (pe.file, pe.lineno), "the shorthand list test for %s accepts %s, the sibling sections accept %s: the same YAML list works for one section and is rejected for another" % (k, v, ref))
+        popped = {}
+        for n in ast.walk(pen):
+            if isinstance(n, ast.Assign) and len(n.targets) == 1 and isinstance(n.targets[0], ast.Name):
+                v = n.value
+                if isinstance(v, ast.Name):
+                    group[find(n.targets[0].id)] = find(v.id)
+                if isinstance(v, ast.Call) and isinstance(v.func, ast.Attribute) and v.func.attr == "pop" and v.args and common.const_str(v.args[0]) in ("x_errors", "y_errors", "errors"):
+                    popped[common.const_str(v.args[0])] = n.targets[0].id
+        tests = {}
+        for n in ast.walk(pen):
+            if isinstance(n, ast.Call) and isinstance(n.func, ast.Name) and n.func.id == "isinstance" and len(n.args) == 2 and isinstance(n.args[0], ast.Subscript) \
+                    and isinstance(n.args[0].value, ast.Name) and ast.unparse(n.args[0].slice) == "0":
+                ty = n.args[1]
+                names = sorted(e.id for e in (ty.elts if isinstance(ty, ast.Tuple) else [ty]) if isinstance(e, ast.Name))
+                for key, var in popped.items():
+                    if find(var) == find(n.args[0].value.id):
+                        tests[{"x_errors": "_xerrs", "y_errors": "_yerrs", "errors": "_errs"}[key]] = names
+        if set(tests) != {"_xerrs", "_yerrs", "_errs"}:
+            raise AnalysisError("process_error_sources: shorthand element tests not found (%s)" % sorted(tests))
+        ref = tests["_yerrs"]
+        for k, v in sorted(tests.items()):
+            R.ob("E7", "shorthand list:%s" % k, v == ref, (pe.file, pe.lineno), "the shorthand list test for %s accepts %s, the sibling sections accept %s: the same YAML list works for one section and is rejected for another" % (k, v, ref))
 
     # ---------------------------------------------------------------- E9: nothing clears the loaded results after they were installed
-    R.rule("E9", "in the fit reader no call that clears the loaded results (a fit mutator) can follow the installation of the stored fit results", 1)
-    R.rule("E12", "the reader applies the stored parameter values after it re-fixes parameters (fix_parameter(name, value) resets the value to the one recorded when it was "
-                  "fixed; the current value is only in the stored results)", 1)
-    XF = p.find_class("XYFit")
-    # the function of the reader class that installs the results (the reader itself, or a helper its tail was moved into) and the name the fit has there
-    host, fitvar = None, None
-    for m in p.find_class("FitYamlReader").all_methods().values():
-        if not hasattr(m, "node"):
-            continue
-        for n in ast.walk(m.node):
-            if isinstance(n, ast.Assign):
-                for t in n.targets:
-                    if isinstance(t, ast.Attribute) and t.attr == "_loaded_result_dict" and isinstance(t.value, ast.Name):
-                        host, fitvar = m, t.value.id
-    if host is None:
-        raise AnalysisError("FitYamlReader: installation of the loaded results not found")
-    g = eng.cfg(host)
-
-    def installs(n):
-        st = n.stmt
-        return n.kind == "stmt" and isinstance(st, ast.Assign) and any(isinstance(t, ast.Attribute) and t.attr == "_loaded_result_dict" and isinstance(t.value, ast.Name) and t.value.id == fitvar for t in st.targets)
-
-    inst = [n for n in g.stmt_nodes() if installs(n)]
-    clearing, fixing, valuing = {}, set(), set()
-    for n in g.stmt_nodes():
-        for c in eng.calls_in_parts(n.ast_parts()):
-            if not isinstance(c.func, ast.Attribute):
+    with R.guard("E9: nothing clears the loaded results after they were instal"):
+        R.rule("E9", "in the fit reader no call that clears the loaded results (a fit mutator) can follow the installation of the stored fit results", 1)
+        R.rule("E12", "the reader applies the stored parameter values after it re-fixes parameters (fix_parameter(name, value) resets the value to the one recorded when it was "
+                      "fixed; the current value is only in the stored results)", 1)
+        XF = p.find_class("XYFit")
+        # the function of the reader class that installs the results (the reader itself, or a helper its tail was moved into) and the name the fit has there
+        host, fitvar = None, None
+        for m in p.find_class("FitYamlReader").all_methods().values():
+            if not hasattr(m, "node"):
                 continue
-            recv = c.func.value
-            on_fit = isinstance(recv, ast.Name) and recv.id == fitvar
-            on_fitter = isinstance(recv, ast.Attribute) and recv.attr == "_fitter" and isinstance(recv.value, ast.Name) and recv.value.id == fitvar
-            if on_fit:
-                m = XF.find_method(c.func.attr)
-                if m is not None and "_loaded_result_dict" in eng.eff.trans_writes(XF, m):
-                    clearing[n.id] = c.func.attr
-                if c.func.attr == "fix_parameter":
-                    fixing.add(n.id)
-            if (on_fit and c.func.attr in ("set_all_parameter_values", "set_parameter_values")) or (on_fitter and c.func.attr in ("set_all_fit_parameter_values", "set_fit_parameter_values")):
-                valuing.add(n.id)
-    bad = None
-    for n in inst:
-        pth = g.find_path(n.id, lambda k: k.id in clearing, exceptional=False)
-        if pth is not None:
-            bad = (n, pth[-1])
-    R.ob("E9", "FitYamlReader:results installed last", bad is None, (host.file, bad[0].lineno if bad else host.lineno),
-         "after the stored fit results are installed the reader still calls %s.%s(), which clears them: a reloaded fit with that feature reports did_fit=False and no uncertainties" % (fitvar, clearing.get(bad[1].id) if bad else ""))
-    if not fixing:
-        raise AnalysisError("FitYamlReader: re-fixing of parameters not found next to the installation of the results (%s)" % host.qualname)
-    bad = None
-    for v in valuing:
-        pth = g.find_path(v, lambda k: k.id in fixing, exceptional=False)
-        if pth is not None:
-            bad = pth
-    R.ob("E12", "FitYamlReader:stored values after fixing", bad is None, (host.file, bad[0].lineno if bad else host.lineno),
-         "the stored parameter values are applied before the parameters are re-fixed: fix_parameter(name, recorded value) then resets a fixed parameter whose value was changed "
-         "after fixing, and the reloaded fit differs from the saved one")
+            for n in ast.walk(m.node):
+                if isinstance(n, ast.Assign):
+                    for t in n.targets:
+                        if isinstance(t, ast.Attribute) and t.attr == "_loaded_result_dict" and isinstance(t.value, ast.Name):
+                            host, fitvar = m, t.value.id
+        if host is None:
+            raise AnalysisError("FitYamlReader: installation of the loaded results not found")
+        g = eng.cfg(host)
+
+        def installs(n):
+            st = n.stmt
+            return n.kind == "stmt" and isinstance(st, ast.Assign) and any(isinstance(t, ast.Attribute) and t.attr == "_loaded_result_dict" and isinstance(t.value, ast.Name) and t.value.id == fitvar for t in st.targets)
+
+        inst = [n for n in g.stmt_nodes() if installs(n)]
+        clearing, fixing, valuing = {}, set(), set()
+        for n in g.stmt_nodes():
+            for c in eng.calls_in_parts(n.ast_parts()):
+                if not isinstance(c.func, ast.Attribute):
+                    continue
+                recv = c.func.value
+                on_fit = isinstance(recv, ast.Name) and recv.id == fitvar
+                on_fitter = isinstance(recv, ast.Attribute) and recv.attr == "_fitter" and isinstance(recv.value, ast.Name) and recv.value.id == fitvar
+                if on_fit:
+                    m = XF.find_method(c.func.attr)
+                    if m is not None and "_loaded_result_dict" in eng.eff.trans_writes(XF, m):
+                        clearing[n.id] = c.func.attr
+                    if c.func.attr == "fix_parameter":
+                        fixing.add(n.id)
+                if (on_fit and c.func.attr in ("set_all_parameter_values", "set_parameter_values")) or (on_fitter and c.func.attr in ("set_all_fit_parameter_values", "set_fit_parameter_values")):
+                    valuing.add(n.id)
+        bad = None
+        for n in inst:
+            pth = g.find_path(n.id, lambda k: k.id in clearing, exceptional=False)
+            if pth is not None:
+                bad = (n, pth[-1])
+        R.ob("E9", "FitYamlReader:results installed last", bad is None, (host.file, bad[0].lineno if bad else host.lineno),
+             "after the stored fit results are installed the reader still calls %s.%s(), which clears them: a reloaded fit with that feature reports did_fit=False and no uncertainties" % (fitvar, clearing.get(bad[1].id) if bad else ""))
+        if not fixing:
+            raise AnalysisError("FitYamlReader: re-fixing of parameters not found next to the installation of the results (%s)" % host.qualname)
+        bad = None
+        for v in valuing:
+            pth = g.find_path(v, lambda k: k.id in fixing, exceptional=False)
+            if pth is not None:
+                bad = pth
+        R.ob("E12", "FitYamlReader:stored values after fixing", bad is None, (host.file, bad[0].lineno if bad else host.lineno),
+             "the stored parameter values are applied before the parameters are re-fixed: fix_parameter(name, recorded value) then resets a fixed parameter whose value was changed "
+             "after fixing, and the reloaded fit differs from the saved one")
 
     # ---------------------------------------------------------------- E10: exact collapse of constant error vectors
-    R.rule("E10", "an uncertainty vector is written as a single number only if all entries are exactly equal (no tolerance)", 1)
-    tol = [common.call_name(c) for c in ast.walk(we.node) if isinstance(c, ast.Call) and common.call_name(c) in ("allclose", "isclose")]
-    R.ob("E10", "write_errors_to_yaml:collapse", not tol, (we.file, we.lineno), "write_errors_to_yaml collapses error vectors with a tolerance (%s): vectors of small, different uncertainties come back as a constant" % tol)
+    with R.guard("E10: exact collapse of constant error vectors"):
+        R.rule("E10", "an uncertainty vector is written as a single number only if all entries are exactly equal (no tolerance)", 1)
+        tol = [common.call_name(c) for c in ast.walk(we.node) if isinstance(c, ast.Call) and common.call_name(c) in ("allclose", "isclose")]
+        R.ob("E10", "write_errors_to_yaml:collapse", not tol, (we.file, we.lineno), "write_errors_to_yaml collapses error vectors with a tolerance (%s): vectors of small, different uncertainties come back as a constant" % tol)
 
     # ---------------------------------------------------------------- E11: stored flags / numbers are not dropped by a truthiness test
-    R.rule("E11", "a stored value that can be falsy (a flag, a number) is restored whatever its value: readers test such keys for presence (`in`, `is not None`), never for truth", 2)
-    rep_mods = [m for m in p.modules.values() if m.name.startswith("kafe2.fit.representation")]
-    falsy_keys = {}
-    for m in rep_mods:
-        for n in ast.walk(m.tree):
-            if isinstance(n, ast.Assign) and len(n.targets) == 1 and isinstance(n.targets[0], ast.Subscript) and isinstance(n.targets[0].value, ast.Name) and "yaml_doc" in n.targets[0].value.id:
-                k = common.const_str(n.targets[0].slice)
-                if k is None:
+    with R.guard("E11: stored flags / numbers are not dropped by a truthiness "):
+        R.rule("E11", "a stored value that can be falsy (a flag, a number) is restored whatever its value: readers test such keys for presence (`in`, `is not None`), never for truth", 2)
+        rep_mods = [m for m in p.modules.values() if m.name.startswith("kafe2.fit.representation")]
+        falsy_keys = {}
+        for m in rep_mods:
+            for n in ast.walk(m.tree):
+                if isinstance(n, ast.Assign) and len(n.targets) == 1 and isinstance(n.targets[0], ast.Subscript) and isinstance(n.targets[0].value, ast.Name) and "yaml_doc" in n.targets[0].value.id:
+                    k = common.const_str(n.targets[0].slice)
+                    if k is None:
+                        continue
+                    v = n.value
+                    why = None
+                    if isinstance(v, ast.Call) and isinstance(v.func, ast.Name) and v.func.id in ("float", "int", "bool"):
+                        why = "%s(...)" % v.func.id
+                    elif isinstance(v, ast.Constant) and isinstance(v.value, (bool, int, float)):
+                        why = "constant"
+                    elif isinstance(v, ast.Attribute):
+                        for cls in _classes(p):
+                            ini = cls.find_method("__init__")
+                            if ini is None or (cls.find_prop(v.attr) is None):
+                                continue
+                            args = ini.node.args
+                            names = [a.arg for a in args.args]
+                            defs = dict(zip(names[len(names) - len(args.defaults):], args.defaults))
+                            d = defs.get(v.attr)
+                            if isinstance(d, ast.Constant) and isinstance(d.value, (bool, int, float)) and d.value is not None:
+                                why = "%s(%s=%r)" % (cls.name, v.attr, d.value)
+                                break
+                    if why:
+                        falsy_keys.setdefault(k, why)
+        for k in ("enabled", "relative", "density"):
+            if k not in falsy_keys:
+                falsy_keys[k] = "flag (by name)"
+        R.info["keys whose stored value can be falsy"] = {k: falsy_keys[k] for k in sorted(falsy_keys)}
+        n_reads = 0
+        for m in rep_mods:
+            for fn in [x for x in ast.walk(m.tree) if isinstance(x, ast.FunctionDef)]:
+                bound = {}
+                for n in ast.walk(fn):
+                    if isinstance(n, ast.Assign) and len(n.targets) == 1 and isinstance(n.targets[0], ast.Name) and isinstance(n.value, ast.Call) and isinstance(n.value.func, ast.Attribute) \
+                            and n.value.func.attr in ("pop", "get") and n.value.args and common.const_str(n.value.args[0]) in falsy_keys:
+                        bound[n.targets[0].id] = (common.const_str(n.value.args[0]), n.lineno)
+                if not bound:
                     continue
-                v = n.value
-                why = None
-                if isinstance(v, ast.Call) and isinstance(v.func, ast.Name) and v.func.id in ("float", "int", "bool"):
-                    why = "%s(...)" % v.func.id
-                elif isinstance(v, ast.Constant) and isinstance(v.value, (bool, int, float)):
-                    why = "constant"
-                elif isinstance(v, ast.Attribute):
-                    for cls in _classes(p):
-                        ini = cls.find_method("__init__")
-                        if ini is None or (cls.find_prop(v.attr) is None):
-                            continue
-                        args = ini.node.args
-                        names = [a.arg for a in args.args]
-                        defs = dict(zip(names[len(names) - len(args.defaults):], args.defaults))
-                        d = defs.get(v.attr)
-                        if isinstance(d, ast.Constant) and isinstance(d.value, (bool, int, float)) and d.value is not None:
-                            why = "%s(%s=%r)" % (cls.name, v.attr, d.value)
-                            break
-                if why:
-                    falsy_keys.setdefault(k, why)
-    for k in ("enabled", "relative", "density"):
-        if k not in falsy_keys:
-            falsy_keys[k] = "flag (by name)"
-    R.info["keys whose stored value can be falsy"] = {k: falsy_keys[k] for k in sorted(falsy_keys)}
-    n_reads = 0
-    for m in rep_mods:
-        for fn in [x for x in ast.walk(m.tree) if isinstance(x, ast.FunctionDef)]:
-            bound = {}
-            for n in ast.walk(fn):
-                if isinstance(n, ast.Assign) and len(n.targets) == 1 and isinstance(n.targets[0], ast.Name) and isinstance(n.value, ast.Call) and isinstance(n.value.func, ast.Attribute) \
-                        and n.value.func.attr in ("pop", "get") and n.value.args and common.const_str(n.value.args[0]) in falsy_keys:
-                    bound[n.targets[0].id] = (common.const_str(n.value.args[0]), n.lineno)
-            if not bound:
-                continue
-            n_reads += len(bound)
-            bad = []
-            for n in ast.walk(fn):
-                # `if NAME:` (alone or in a conjunction) whose body forwards NAME and whose else-branch does not: the value is used only when truthy
-                if not isinstance(n, ast.If):
-                    continue
-                conj = n.test.values if isinstance(n.test, ast.BoolOp) and isinstance(n.test.op, ast.And) else [n.test]
-                for t in conj:
-                    if isinstance(t, ast.Name) and t.id in bound:
-                        in_body = any(isinstance(x, ast.Name) and x.id == t.id and isinstance(x.ctx, ast.Load) for b in n.body for x in ast.walk(b))
-                        in_else = any(isinstance(x, ast.Name) and x.id == t.id and isinstance(x.ctx, ast.Load) for b in n.orelse for x in ast.walk(b))
-                        if in_body and not in_else:
-                            bad.append((t.id, bound[t.id][0], t.lineno))
-            for name, key, line in sorted(set(bad)):
-                R.ob("E11", "%s:%s:%s" % (m.relpath, fn.name, key), False, (m.relpath, line),
-                     "the reader drops the stored '%s' when it is falsy (`if %s:` after pop/get): a saved %s=False / 0 comes back as the constructor default" % (key, name, key))
-            if not bad:
-                R.ob("E11", "%s:%s" % (m.relpath, fn.name), True, (m.relpath, fn.lineno), "")
-    if n_reads < 2:
-        raise AnalysisError("E11: reads of flag / number keys in the readers not found (%d)" % n_reads)
+                n_reads += len(bound)
+                bad = []
+                for n in ast.walk(fn):
+                    # `if NAME:` (alone or in a conjunction) whose body forwards NAME and whose else-branch does not: the value is used only when truthy
+                    if not isinstance(n, ast.If):
+                        continue
+                    conj = n.test.values if isinstance(n.test, ast.BoolOp) and isinstance(n.test.op, ast.And) else [n.test]
+                    for t in conj:
+                        if isinstance(t, ast.Name) and t.id in bound:
+                            in_body = any(isinstance(x, ast.Name) and x.id == t.id and isinstance(x.ctx, ast.Load) for b in n.body for x in ast.walk(b))
+                            in_else = any(isinstance(x, ast.Name) and x.id == t.id and isinstance(x.ctx, ast.Load) for b in n.orelse for x in ast.walk(b))
+                            if in_body and not in_else:
+                                bad.append((t.id, bound[t.id][0], t.lineno))
+                for name, key, line in sorted(set(bad)):
+                    R.ob("E11", "%s:%s:%s" % (m.relpath, fn.name, key), False, (m.relpath, line),
+                         "the reader drops the stored '%s' when it is falsy (`if %s:` after pop/get): a saved %s=False / 0 comes back as the constructor default" % (key, name, key))
+                if not bad:
+                    R.ob("E11", "%s:%s" % (m.relpath, fn.name), True, (m.relpath, fn.lineno), "")
+        if n_reads < 2:
+            raise AnalysisError("E11: reads of flag / number keys in the readers not found (%d)" % n_reads)
 
     # ---------------------------------------------------------------- E13: mappings whose order the reader turns into a list order are written in source order
-    R.rule("E13", "a mapping that the reader turns into a list (positional meaning) is written in the order of the object it describes: no sorting / set on the way", 1)
-    check_order_carrying(eng, R, "E13")
+    with R.guard("E13: mappings whose order the reader turns into a list order"):
+        R.rule("E13", "a mapping that the reader turns into a list (positional meaning) is written in the order of the object it describes: no sorting / set on the way", 1)
+        check_order_carrying(eng, R, "E13")
 
-    # the implicit no-errors state is part of the fit: it is written as the default identifier the constructor turns back into that state
-    iw = p.find_class("FitYamlWriter").find_method("_make_representation")
-    isrc = common.src_of(iw.node)
-    R.ob("E5", "FitYamlWriter:implicit cost function", isrc.like("if fit._implicit_no_errors: _cid = 'chi2'") and isrc.like("_yaml_doc['cost_function'] = "), (iw.file, iw.lineno),
-         "a fit in the implicit no-errors state must be written with the default cost function identifier: written as 'chi2_no_errors' it comes back without the switch, "
-         "and uncertainties added to the reloaded fit are ignored")
+        # the implicit no-errors state is part of the fit: it is written as the default identifier the constructor turns back into that state
+        iw = p.find_class("FitYamlWriter").find_method("_make_representation")
+        isrc = common.src_of(iw.node)
+        R.ob("E5", "FitYamlWriter:implicit cost function", isrc.like("if fit._implicit_no_errors: _cid = 'chi2'") and isrc.like("_yaml_doc['cost_function'] = "), (iw.file, iw.lineno),
+             "a fit in the implicit no-errors state must be written with the default cost function identifier: written as 'chi2_no_errors' it comes back without the switch, "
+             "and uncertainties added to the reloaded fit are ignored")
 
     # ---------------------------------------------------------------- E14: settings given to the fit constructor come back
-    R.rule("E14", "every setting a fit constructor stores on the fit (beyond data, model, cost function and minimizer, which have their own entries) is restored by the reader: "
-                  "passed to the constructor or assigned to the new object", 4)
-    rsrc = common.src_of(fr.node)
-    fwm = p.find_class("FitYamlWriter").find_method("_make_representation")
-    wsrc = common.src_of(fwm.node)
-    handled = {"self", "data", "xy_data", "model_function", "model_density_function", "cost_function", "minimizer", "minimizer_kwargs"}
-    n14 = 0
-    for cn in ("XYFit", "IndexedFit", "HistFit", "UnbinnedFit"):
-        ini = p.find_class(cn).find_method("__init__")
-        for a in ini.node.args.args:
-            q = a.arg
-            if q in handled:
-                continue
-            n14 += 1
-            restored = ("_fit_kwargs['%s']" % q) in rsrc or ("_fit_object.%s =" % q) in rsrc or ("_fit_object._%s =" % q) in rsrc
-            written = ("_yaml_doc['%s']" % q) in wsrc or any(("_yaml_doc['%s']" % q) in common.src_of(m.node) for m in [p.find_class("ParametricModelYamlWriter").find_method("_make_representation")])
-            R.ob("E14", "%s:%s" % (cn, q), restored and written, (fr.file, fr.lineno),
-                 "%s(%s=...) is stored on the fit but %s: a reloaded fit silently falls back to the default" % (cn, q, "not written to the file" if not written else "never restored by the reader"))
-    if n14 < 4:
-        raise AnalysisError("E14: constructor settings of the fit classes not found")
+    with R.guard("E14: settings given to the fit constructor come back"):
+        R.rule("E14", "every setting a fit constructor stores on the fit (beyond data, model, cost function and minimizer, which have their own entries) is restored by the reader: "
+                      "passed to the constructor or assigned to the new object", 4)
+        rsrc = common.src_of(fr.node)
+        fwm = p.find_class("FitYamlWriter").find_method("_make_representation")
+        wsrc = common.src_of(fwm.node)
+        handled = {"self", "data", "xy_data", "model_function", "model_density_function", "cost_function", "minimizer", "minimizer_kwargs"}
+        n14 = 0
+        for cn in ("XYFit", "IndexedFit", "HistFit", "UnbinnedFit"):
+            ini = p.find_class(cn).find_method("__init__")
+            for a in ini.node.args.args:
+                q = a.arg
+                if q in handled:
+                    continue
+                n14 += 1
+                restored = ("_fit_kwargs['%s']" % q) in rsrc or ("_fit_object.%s =" % q) in rsrc or ("_fit_object._%s =" % q) in rsrc
+                written = ("_yaml_doc['%s']" % q) in wsrc or any(("_yaml_doc['%s']" % q) in common.src_of(m.node) for m in [p.find_class("ParametricModelYamlWriter").find_method("_make_representation")])
+                R.ob("E14", "%s:%s" % (cn, q), restored and written, (fr.file, fr.lineno),
+                     "%s(%s=...) is stored on the fit but %s: a reloaded fit silently falls back to the default" % (cn, q, "not written to the file" if not written else "never restored by the reader"))
+        if n14 < 4:
+            raise AnalysisError("E14: constructor settings of the fit classes not found")
 
     # ---------------------------------------------------------------- E8
-    src = common.src_of(fr.node)
-    R.ob("E8", "FitYamlReader:param model", "_fit_object._param_model = _read_parametric_model" not in src or ("_on_error_change_callback = _fit_object._on_error_change" in src and "_fit_object._on_error_change()" in src),
-         (fr.file, fr.lineno), "the reader replaces the fit's parametric model without wiring it to the fit's error-change callback / invalidating the error nodes")
-    R.ob("E8", "FitYamlReader:constraints", "_fit_object._fit_param_constraints = [" not in src or "_fit_object._on_constraint_change()" in src, (fr.file, fr.lineno),
-         "the reader replaces the fit's constraint list without invalidating the constraint node")
-
+    with R.guard("E8"):
+        src = common.src_of(fr.node)
+        R.ob("E8", "FitYamlReader:param model", "_fit_object._param_model = _read_parametric_model" not in src or ("_on_error_change_callback = _fit_object._on_error_change" in src and "_fit_object._on_error_change()" in src),
+             (fr.file, fr.lineno), "the reader replaces the fit's parametric model without wiring it to the fit's error-change callback / invalidating the error nodes")
+        R.ob("E8", "FitYamlReader:constraints", "_fit_object._fit_param_constraints = [" not in src or "_fit_object._on_constraint_change()" in src, (fr.file, fr.lineno),
+             "the reader replaces the fit's constraint list without invalidating the constraint node")
 
 def _classes(p):
     out = []
